@@ -306,4 +306,38 @@ Proof.
               (den_extends s s' _ _ B X' Dge) (den_extends s s' _ _ B X' Dhe) (Fe s' X')).
 Qed.
 
+(** the same statements for arbitrary existing operands and the standard fuel *)
+
+Theorem apply_not_g_cache_exact : forall fuel x s c1 c2 f,
+  BddOK s -> CacheOK cget1 s c1 -> CacheOK cget2 s c2 -> ref_ok s f -> FUEL s <= fuel ->
+  same_out (apply_not_g alloc C1 cget1 cadd1 fuel x s c1 f)
+           (apply_not_g alloc C2 cget2 cadd2 fuel x s c2 f).
+Proof.
+  intros fuel x s c1 c2 f B O1 O2 Hf F. destruct (den_exists s f B Hf) as [phi D].
+  unfold FUEL in F. pose proof (rlevel_le s (bo_wf s B) f).
+  apply (apply_not_g_agree fuel x s c1 c2 f phi B O1 O2 D). lia.
+Qed.
+
+Theorem apply_bin_g_cache_exact : forall op fuel x s c1 c2 f g,
+  BddOK s -> CacheOK cget1 s c1 -> CacheOK cget2 s c2 -> ref_ok s f -> ref_ok s g -> FUEL s <= fuel ->
+  same_out (apply_bin_g alloc gt1 C1 cget1 cadd1 fuel x s c1 op f g)
+           (apply_bin_g alloc gt2 C2 cget2 cadd2 fuel x s c2 op f g).
+Proof.
+  intros op fuel x s c1 c2 f g B O1 O2 Hf Hg F.
+  destruct (den_exists s f B Hf) as [phi Df]. destruct (den_exists s g B Hg) as [psi Dg].
+  unfold FUEL in F. apply (apply_bin_g_agree op fuel x s c1 c2 f g phi psi B O1 O2 Df Dg). lia.
+Qed.
+
+Theorem apply_ite_g_cache_exact : forall fuel x s c1 c2 f g h,
+  BddOK s -> CacheOK cget1 s c1 -> CacheOK cget2 s c2 -> ref_ok s f -> ref_ok s g -> ref_ok s h ->
+  FUEL s <= fuel ->
+  same_out (apply_ite_g alloc gt1 C1 cget1 cadd1 fuel x s c1 f g h)
+           (apply_ite_g alloc gt2 C2 cget2 cadd2 fuel x s c2 f g h).
+Proof.
+  intros fuel x s c1 c2 f g h B O1 O2 Hf Hg Hh F.
+  destruct (den_exists s f B Hf) as [phi Df]. destruct (den_exists s g B Hg) as [psi Dg].
+  destruct (den_exists s h B Hh) as [theta Dh]. unfold FUEL in F.
+  apply (apply_ite_g_agree fuel x s c1 c2 f g h phi psi theta B O1 O2 Df Dg Dh). lia.
+Qed.
+
 End CacheExact.
